@@ -629,6 +629,29 @@ func runC04(w *World, r *Report) {
 			fmt.Sprintf("variable-width contributors %v are concatenated and no length flows into the message: e.g. Subject=\"ab\",Data=\"c\" and Subject=\"a\",Data=\"bc\" have the same message, hash and signatures", vw))
 	}
 
+	// 4b. the layout of the signed bytes does not depend on the data: every field is written at its own fixed place
+	r.rule("signed-layout-is-data-independent", "no branch in the builders of the signed messages (initData, GetMessage, the gossiper statement) depends on the content of a field of the signed object: a layout chosen by comparing fields makes different field assignments produce the same bytes", 2)
+	for _, cv := range [][3]string{{"accountant", "Vertex", "initData"}, {"transaction", "Transaction", "GetMessage"}, {"gossip", "", "createGossiperMessageToSign"}, {"gossip", "", "initConnectionData"}} {
+		fn := w.Func(cv[0], cv[1], cv[2])
+		if fn == nil {
+			continue
+		}
+		bad := ""
+		for _, g := range withHelpers(fn, 2) {
+			for _, b := range g.Blocks {
+				iff, ok := b.Instrs[len(b.Instrs)-1].(*ssa.If)
+				if !ok {
+					continue
+				}
+				if src := contentDependence(iff.Cond, map[ssa.Value]bool{}, 0); src != "" {
+					bad += fmt.Sprintf(" the branch at %s in %s depends on the content of %s;", lineOf(w, iff), shortFn(g), src)
+				}
+			}
+		}
+		r.seen(shortFn(fn))
+		r.check(bad == "", "signed-layout-is-data-independent", cv[0]+"."+cv[2], w.Pos(fn.Pos()), "fields are written in a fixed order at places that depend at most on lengths", bad)
+	}
+
 	// 5. conditionally verified field must be bound
 	r.rule("conditional-signature-bound", "a signature whose verification is selected by a test on the field itself must contribute (content or presence) to an authenticated digest", 1)
 	if f := w.fx(r, "accountant", "Vertex", "verify"); f != nil {
@@ -977,4 +1000,79 @@ func gossipVerifyBeforeAdmit(w *World, r *Report, rule string) {
 		}
 		r.check(behindDeepSite(d, verified), rule, "addLeafMemorized/AddVertexByID("+v+")", lineOf(w, d.c), "a gossiped (or replayed) vertex enters the DAG only after it verified", "insertion not dominated by the success edge of verify on the same vertex with the node's verifier")
 	}
+}
+
+
+// contentDependence: does v depend on the content (not merely the length) of a field or parameter? Returns what.
+func contentDependence(v ssa.Value, seen map[ssa.Value]bool, d int) string {
+	if v == nil || seen[v] || d > 14 {
+		return ""
+	}
+	seen[v] = true
+	switch x := v.(type) {
+	case *ssa.Const, *ssa.Global, *ssa.Function, *ssa.Builtin:
+		return ""
+	case *ssa.Parameter:
+		switch x.Type().Underlying().(type) {
+		case *types.Pointer, *types.Struct:
+			return "" // the object itself; its fields are reached through FieldAddr
+		}
+		return "parameter " + x.Name()
+	case *ssa.FieldAddr:
+		return pathOf(x)
+	case *ssa.Field:
+		return pathOf(x)
+	case *ssa.BinOp:
+		if s := contentDependence(x.X, seen, d+1); s != "" {
+			return s
+		}
+		return contentDependence(x.Y, seen, d+1)
+	case *ssa.UnOp:
+		return contentDependence(x.X, seen, d+1)
+	case *ssa.Slice:
+		return contentDependence(x.X, seen, d+1)
+	case *ssa.Convert:
+		return contentDependence(x.X, seen, d+1)
+	case *ssa.ChangeType:
+		return contentDependence(x.X, seen, d+1)
+	case *ssa.MakeInterface:
+		return contentDependence(x.X, seen, d+1)
+	case *ssa.Extract:
+		return contentDependence(x.Tuple, seen, d+1)
+	case *ssa.Index:
+		return contentDependence(x.X, seen, d+1)
+	case *ssa.IndexAddr:
+		return contentDependence(x.X, seen, d+1)
+	case *ssa.Lookup:
+		return contentDependence(x.X, seen, d+1)
+	case *ssa.Phi:
+		for _, e := range x.Edges {
+			if s := contentDependence(e, seen, d+1); s != "" {
+				return s
+			}
+		}
+	case *ssa.Call:
+		if b, ok := x.Call.Value.(*ssa.Builtin); ok && (b.Name() == "len" || b.Name() == "cap") {
+			return "" // lengths may size the buffer
+		}
+		if n := calleeName(x); strings.HasSuffix(n, ".Next") || strings.HasSuffix(n, ".Valid") {
+			return ""
+		}
+		for _, a := range x.Call.Args {
+			if s := contentDependence(a, seen, d+1); s != "" {
+				return s
+			}
+		}
+	case *ssa.Next:
+		return "" // loop control over a fixed list
+	case *ssa.Alloc:
+		for _, ref := range *x.Referrers() {
+			if st, ok := ref.(*ssa.Store); ok && st.Addr == ssa.Value(x) {
+				if s := contentDependence(st.Val, seen, d+1); s != "" {
+					return s
+				}
+			}
+		}
+	}
+	return ""
 }
